@@ -271,6 +271,38 @@ fn mmr(out: &mut Out, rng: &mut Rng, thorough: bool) {
 		for n in 0..maxn {
 			let elen = if rng.chance(1, 4) { rng.range(1, 40) as usize } else { 8 };
 			let e = Elem(rng.bytes(elen));
+			// PMMR::validate on a backend with ONE hash replaced: every position while the MMR is
+			// small, a few random ones later. Oracle (harness): a replaced inner node, or a
+			// replaced child of an inner node that exists, must be reported; a replaced node
+			// without parent inside the MMR (a peak that is a leaf) cannot be.
+			if size > 0 && (n <= 40 || rng.chance(1, 12)) {
+				let cands: Vec<u64> = if n < 12 {
+					(0..size).collect()
+				} else {
+					(0..3).map(|_| rng.below(size)).collect()
+				};
+				for cpos in cands {
+					let mut bx = ba.clone();
+					let mut hb = bx.hashes[cpos as usize].to_vec();
+					let bit = rng.below(256) as usize;
+					hb[bit / 8] ^= 1 << (bit % 8);
+					bx.hashes[cpos as usize] = Hash::from_vec(&hb);
+					let ok = PMMR::<Elem, _>::at(&mut bx, size).validate().is_ok();
+					out.line(&format!("pmmr validatex {} {}", cpos, hex(&hb)), &ok.to_string());
+					let (parent, _) = pmmr::family(cpos);
+					let must_fail = pmmr::bintree_postorder_height(cpos) > 0 || parent < size;
+					if ok == must_fail {
+						out.raw(&format!(
+							"#ORACLE-FAIL C07 PMMR::validate {} a backend of size {} whose hash at position {} (height {}, parent {}) was replaced",
+							if ok { "accepts" } else { "refuses" },
+							size,
+							cpos,
+							pmmr::bintree_postorder_height(cpos),
+							parent
+						));
+					}
+				}
+			}
 			let mut p = PMMR::at(&mut ba, size);
 			let res = p.push(&e);
 			size = p.size;
